@@ -129,10 +129,11 @@ template<class T> struct Driver {
     }
   }
 
-  void mk(int i) {
+  void mk(int i, int fixed_k = 0) {
     static const int KS[] = {10, 10, 10, 11, 12, 15, 20, 25, 30, 40};
     int k = KS[g.below(10)];
     if ((int)g.below(100) < bigk_pct) k = (int[]){50, 64, 100, 200}[g.below(4)];   // thorough tier: capacities 110 .. 410
+    if (fixed_k) k = fixed_k;
     sk[i].reset(new TD((uint16_t)k));
     last[i] = project(*sk[i]); tainted[i] = false; rst[i] = false; foreign[i] = false;
     if (i < NS) twin[i] = false;
@@ -396,6 +397,55 @@ template<class T> struct Driver {
       .i("consumed", consumed).raw("r", proj_json(last[dst])).emit();
   }
 
+  // ---- directed segments: the centroid bound under pressure ("however long the stream").  Every compress point is an
+  // event, so the capacity clause is judged at each of them.
+  void begin_segment(long seg, const char* what) {
+    Ev("Begin").i("seg", seg).str("T", sizeof(T) == 8 ? "double" : "float").str("directed", what).d("zero", 0.0).d("one", 1.0).emit();
+    for (int i = 0; i < 2 * NS; i++) { sk[i].reset(); rst[i] = false; tainted[i] = false; foreign[i] = false; }
+    for (int b = 0; b < NB; b++) blive[b] = false;
+    for (int i = 0; i < NS; i++) twin[i] = false;
+    mode = (int)g.below(8); if (mode == 5) mode = 1; cur = 0; scale = 1000;
+  }
+  // (a) a compress point (explicit compress, or a query) after every single update
+  void directed_query_each(long seg, int k, long n) {
+    begin_segment(seg, "query-after-every-update");
+    mk(0, k);
+    for (long j = 0; j < n; j++) {
+      do_updates(0, std::vector<double>{draw()});
+      int w = (int)g.below(20);
+      if (w == 0) do_quantgrid(0, std::vector<double>{0.0, 0.25, 0.5, 1.0});
+      else if (w == 1) do_rankgrid(0, std::vector<double>{last[0].mn, last[0].mx});
+      else do_compress(0);
+    }
+    { Ev e("Obs"); e.i("id", 0).raw("r", proj_json(project(*sk[0]))); e.emit(); }
+  }
+  // (b) a chain of merges of many tiny sketches into one
+  void directed_merge_chain(long seg, int k, long merges) {
+    begin_segment(seg, "merge-chain-of-tiny-sketches");
+    mk(0, k);
+    for (long j = 0; j < merges; j++) {
+      mk(1, g.chance(80) ? k : 10);
+      std::vector<double> vals; for (long u = g.range(1, 8); u > 0; u--) vals.push_back(draw());
+      do_updates(1, vals);
+      if (g.chance(30)) do_compress(1);
+      do_merge(0, 1);
+    }
+    { Ev e("Obs"); e.i("id", 0).raw("r", proj_json(project(*sk[0]))); e.emit(); }
+  }
+  // (c) one long stream, with a quantile grid now and then
+  void directed_long_stream(long seg, int k, long n) {
+    begin_segment(seg, "long-stream");
+    mode = 1;
+    mk(0, k);
+    for (long done = 0; done < n; ) {
+      long m = std::min(n - done, (long)g.range(3000, 12000));
+      std::vector<double> vals; vals.reserve(m); for (long j = 0; j < m; j++) vals.push_back(draw());
+      do_updates(0, vals); done += m;
+      if (g.chance(10)) do_quantgrid(0, rank_pool(last[0]));
+    }
+    { Ev e("Obs"); e.i("id", 0).raw("r", proj_json(project(*sk[0]))); e.emit(); }
+  }
+
   void twin_mark(int i) { Ev("Twin").i("a", i).i("b", i + NS).emit(); }
 
   void segment(long seg, long events) {
@@ -540,7 +590,19 @@ int main(int argc, char** argv) {
   g_refdir = vt::arg(argc, argv, "--ref", "/repo/tdigest/test");
   vt::open_out(vt::arg(argc, argv, "--out", "/dev/stdout"));
   vt::Rng g(seed);
-  if (trials > 0) {
+  long directed = vt::argl(argc, argv, "--directed", -1);
+  if (directed >= 0) {
+    alarm(600);
+    Driver<double> d(g, 0);
+    switch (directed) {
+      case 0: d.directed_query_each(0, 10, 1500); break;
+      case 1: d.directed_query_each(0, 50, 700); break;
+      case 2: d.directed_merge_chain(0, 10, 250); d.directed_merge_chain(1, 50, 250); break;
+      case 3: d.directed_query_each(0, 200, 1500); break;
+      case 4: d.directed_merge_chain(0, 200, 400); break;
+      default: d.directed_long_stream(0, directed % 2 ? 200 : 100, 1200000); break;
+    }
+  } else if (trials > 0) {
     Ev("Begin").i("seg", 0).str("T", "stat").d("zero", 0.0).d("one", 1.0).emit();
     alarm(600);
     for (long t = 0; t < trials; t++) { if (g.chance(25)) trial<float>(g, t); else trial<double>(g, t); }
